@@ -173,11 +173,15 @@ class TransposeIndexRule(AbstractBinaryRule):
         # negative entries alias the elements they wrap to: count them together, so that at most
         # size_max distinct values remain
         index = jnp.where(index < 0, index + size_max, index)
-        unique_indices, counts = jnp.unique(index, return_counts=True, size=size_max, fill_value=-1)
         coverage = jnp.zeros(size_max, dtype=dtype)
-        coverage = coverage.at[unique_indices].add(
-            counts, indices_are_sorted=True, unique_indices=True
-        )
+        if index.size > 0:
+            # (for an empty index array, jnp.unique pads the values but returns no counts)
+            unique_indices, counts = jnp.unique(
+                index, return_counts=True, size=size_max, fill_value=-1
+            )
+            coverage = coverage.at[unique_indices].add(
+                counts, indices_are_sorted=True, unique_indices=True
+            )
         diagonal_op = DiagonalOperator(
             coverage, axis_destination=axis, in_structure=right.in_structure()
         )
